@@ -810,7 +810,46 @@ def prop_cdf(case, ctx):
 
 # ------------------------------------------------------------------------------------------- registry
 
+# ------------------------------------------------------------------------------------------- repeated calls with the same option arrays
+
+def prop_repeat(case, ctx):
+    """The maps are pure: calling them again with the SAME option arrays (int64 `n`, float `a`, `b`) gives the same answer,
+    single point == row of the batch, and the option arrays are left as they were."""
+    kind, d, a, b, n = case["kind"], case["d"], case["a"], case["b"], case["n"]
+    require_pre(a, b, n, "cheb" if kind != "uni" else "uni")
+    X, I = np.array(case["X"], dtype=float), np.array(case["I"], dtype=int)
+    r = case["row"] % len(X)
+    aa, bb, nn = np.full(d, float(a)), np.full(d, float(b)), np.full(d, int(n), dtype=np.int64)
+    keep = (aa.copy(), bb.copy(), nn.copy())
+    ctx.label("kind:" + kind, f"d={d}")
+    ctx.nontrivial(True)
+
+    def untouched(what):
+        ctx.check(np.array_equal(aa, keep[0]) and np.array_equal(bb, keep[1]) and np.array_equal(nn, keep[2]),
+                  f"{what}: an option array (a / b / n) passed by the caller was modified", n_now=nn.tolist(), n_before=keep[2].tolist())
+
+    if kind != "custom":
+        outs = []
+        for rep in range(3):
+            outs.append(ctx.lib(teneva.poi_to_ind, X[r].copy(), aa, bb, nn, kind))
+            untouched("poi_to_ind(single point)")
+        batch = ctx.lib(teneva.poi_to_ind, X.copy(), aa, bb, nn, kind)
+        untouched("poi_to_ind(batch)")
+        ctx.check(all(np.array_equal(o, outs[0]) for o in outs), "poi_to_ind: repeated identical calls give different indices", outs=[o.tolist() for o in outs])
+        fresh = ctx.lib(teneva.poi_to_ind, X[r].copy(), [float(a)] * d, [float(b)] * d, [int(n)] * d, kind)
+        ctx.check(np.array_equal(outs[-1], fresh), "poi_to_ind: result depends on earlier calls with the same option arrays", got=outs[-1].tolist(), fresh=fresh.tolist())
+        ctx.check(np.array_equal(batch[r], fresh) or kind == "cheb", "poi_to_ind: single point and batch row differ", single=fresh.tolist(), batch=batch[r].tolist())
+        p1 = [ctx.lib(teneva.ind_to_poi, I[r % len(I)].copy(), aa, bb, nn, kind) for _ in range(3)]
+        untouched("ind_to_poi")
+        ctx.check(all(np.array_equal(o, p1[0]) for o in p1), "ind_to_poi: repeated identical calls give different points")
+    karg = case["lim"] if kind == "custom" else kind
+    s1 = [ctx.lib(teneva.poi_scale, X[r].copy(), aa, bb, karg) for _ in range(3)]
+    untouched("poi_scale")
+    ctx.check(all(np.array_equal(o, s1[0]) for o in s1), "poi_scale: repeated identical calls give different points")
+
+
 SUBCHECKS = [
+    Sub("repeat_calls", prop_repeat, strategy=form_cases, quick=60, thorough=600),
     Sub("roundtrip", prop_roundtrip, strategy=roundtrip_cases, quick=150, thorough=2500),
     Sub("roundtrip_all_n", prop_roundtrip, enumerate=all_n_cases, exhaustive=True),
     Sub("points", prop_points, strategy=point_cases, quick=120, thorough=1500),
